@@ -428,6 +428,15 @@ func HelperQueryArithmeticAndLogical(queryOp *structs.QueryArithmetic, resMap ma
 			}
 		}
 
+		// Group ids spell the labels in the order the tag filters were evaluated (value matchers first), so the
+		// same label set can be spelled differently on the two sides: compare label sets in canonical (sorted) form.
+		canonLabels := func(groupID string) string { return putils.ExtractMatchingLabelSet(groupID, []string{}, false) }
+		canonToRightGroupID := make(map[string]string, len(resultRHS.Results))
+		for rGroupID := range resultRHS.Results {
+			canonToRightGroupID[canonLabels(rGroupID)] = rGroupID
+		}
+		canonToLeftGroupID := make(map[string]string, len(resultLHS.Results))
+
 		labelStrSet := make(map[string]struct{})
 		for lGroupID, tsLHS := range resultLHS.Results {
 			// lGroupId is like: metricName{key:value,...
@@ -444,11 +453,9 @@ func HelperQueryArithmeticAndLogical(queryOp *structs.QueryArithmetic, resMap ma
 					continue
 				}
 			} else {
-				labelStr := ""
-				if len(lGroupID) >= len(resultLHS.MetricName) {
-					labelStr = lGroupID[len(resultLHS.MetricName):]
-					rGroupID = resultRHS.MetricName + labelStr
-				}
+				labelStr := canonLabels(lGroupID)
+				canonToLeftGroupID[labelStr] = lGroupID
+				rGroupID = canonToRightGroupID[labelStr]
 
 				if queryOp.Operation == sutils.LetOr || queryOp.Operation == sutils.LetUnless {
 					labelStrSet[labelStr] = struct{}{}
@@ -468,15 +475,11 @@ func HelperQueryArithmeticAndLogical(queryOp *structs.QueryArithmetic, resMap ma
 		}
 		if queryOp.Operation == sutils.LetOr || queryOp.Operation == sutils.LetUnless {
 			for rGroupID, tsRHS := range resultRHS.Results {
-				labelStr := ""
-				if len(rGroupID) >= len(resultRHS.MetricName) {
-					labelStr = rGroupID[len(resultRHS.MetricName):]
-				}
+				labelStr := canonLabels(rGroupID)
 
 				// For 'unless' op, all matching elements in both vectors are dropped
 				if queryOp.Operation == sutils.LetUnless {
-					lGroupID := resultLHS.MetricName + labelStr
-					delete(finalResult, lGroupID)
+					delete(finalResult, canonToLeftGroupID[labelStr])
 					continue
 				} else { // For 'or' op, check if the vector on the right has a label set that does not exist in the vector on the left.
 					_, exists := labelStrSet[labelStr]
